@@ -33,7 +33,7 @@ EXTRA_TEXT = {
     "C04": " The last sentence of the property is proved on the composed model: rescue_trivial_when_unshared (ranking, estimates and q-values of the rescue pass equal those of plain subset grouping when no peptide is shared and scores are distinct), _rows, _ties (existence of shuffles) and _ties_partial (classic strategy, permutation); with ties under picked strategies run-by-run equality is false (the shuffle decides which tied twin survives) and is not claimed.",
     "C10": " purity_rescued_grouping and purity_reported_groups extend purity to the rescue stage and to every row of a successful Pipeline.run (all groupings and strategies) under MarkerOnlyAsPrefix.",
     "C18": " shipped_methods_guarantees instantiates the end-to-end ranking / q-value / row-consistency theorems of C01 and C06 for the pipeline configuration of every shipped method (table regenerated from the TOML files on every run); no_remap_named_methods_do_not_remap is a naming obligation over the same table.",
-    "C07": " pipeline_calls_independent proves, for the concrete composed model the driver executes, that along any sequence of inputs every call on a reused configuration returns what a call on a fresh one returns; every call of the real call sequences is compared with that model.",
+    "C07": " pipeline_calls_independent proves, for the concrete composed model the driver executes, that along any sequence of inputs every call on a reused configuration returns what a call on a fresh one returns; every call of the real call sequences is compared with that model. Nine theorems in all: the five of Model/C07Stream.lean (cli_methods_in_command_line_order, cli_tables_in_command_line_order, stream_table_reads_own_slice, stream_table_depends_on_prefix, stream_run_is_cli_run) say that in the composed command-line model the methods of a run are processed in command-line order on ONE stream of permutations, each reading its own slice; that order is what the MODEL says, not what the property demands, so a departure from it is compared on the correspondence side (no-failing-input-found), while a hash-seed dependent order or member order is a failing input of the hash-seed stage (tie-rich multi-method command lines, triangle components of groups without a peptide of their own).",
 }
 
 # corrections after the independent audit (notes/props-audit.md) and after the fix commits landed: (pid, old, new),
@@ -41,12 +41,13 @@ EXTRA_TEXT = {
 TEXT_PATCHES = [
     ("C11", "For all precursor lists, sample numbers, minimum ratio counts, stabilisation on/off and any edge filter.",
      "Stage-A statements hold for all precursor lists, sample numbers, minimum ratio counts, stabilisation on/off and any edge filter; the consistent-data recovery theorem (consistent_lfq) needs stabilisation off, a minimum ratio count >= 1 and at least two samples that are all linked — with stabilisation on and very unequal peptide counts the summed-intensity ratio enters by design and proportionality to the sample factors is not claimed."),
-    ("C11", "the check reports VIOLATION on /repo until they are applied", "both applied to /repo as fix: commits 0071b99 and b4e1557 (known_findings.json)"),
+    ("C18", "Not claimed: sufficient conditions for the composed model cliRun (its further exits no_ranked_groups, no_rows, \u2026 ) \u2014 the theorems about written tables are conditional on a run that completes (audit B11).",
+     "Completion of the composed model cliRun (Proofs/PipelineComplete.lean): for every shipped method the command-line run IS the inference call (cli_shipped_method_is_inference_call); with recorded parameters that fit (Fits1 / Fits2: one score per group, the recorded shuffles are permutations of the right lengths, a recorded rescue cutoff and cut map that answer the rescue stage) and no group with evidence scored exactly -100 (NoSentinel) the run completes IF AND ONLY IF the data conditions hold — every peptide names a protein and some non-contaminant group has evidence (18 single-pass methods, cli_shipped_single_pass_completes_iff), plus a non-empty first-pass table and a rankable second pass stated relative to the rescue output (9 rescue methods, cli_shipped_rescue_completes_iff) — and every failure is one of the named data errors (unknown_protein, razor_no_proteins, no_ranked_groups, no_rows) or a misfit of the records (cli_shipped_failure_is_data_or_misfit)."),
 ]
 EXTRA_NOTE = {
     "C12": " Hypothesis of conservation / intensity_recompute / tmt_recompute: every evidence file of the set has the SAME SILAC / TMT column layout (the code fixes num_silac_channels from the first row it sees; a label-free file followed by a SILAC file makes it add L/H values into other experiments' slots — the model is faithful to that, the theorems and the generator assume one layout, and the property speaks of 'optionally SILAC or TMT channels' for the set as a whole).",
     "C13": " reread_same_ids_q_score assumes an output name that does not end in .csv: parse_mq_protein_groups_file switches to ',' for *.csv while the writer always writes tabs (recorded as an observation; the tool's documented output is proteinGroups.txt).",
-    "C18": " 'completes and writes a table' is proved as the verdict of the decision model (runCli) for matching input; the theorems about the composed cliRun are conditional on success (a run can still end in the degenerate no_ranked_groups failure when no group has a peptide, which the correspondence exercises).",
+    "C18": " 'completes and writes a table' is proved as the verdict of the decision model (runCli) for matching input and, for the composed cliRun, as an iff on the data under fitting recorded parameters (see the text); what stays conditional: Rankable2 / Fits2 / NoSentinel2 are stated relative to the rescue output rather than reduced to the peptide list, and a group with evidence scored exactly -100 is excluded.",
     "C10": "",
 }
 
